@@ -376,6 +376,46 @@ func (w *World) faTag(structT types.Type, idx int) int {
 	return info.id*1000 + idx + 1
 }
 
+// HeapWF gives the well-formedness axioms of one version of a heap: stored references were allocated
+// no later than `top`, stored unsigned integers are within their machine range.
+func (w *World) HeapWF(h, version, top string) []string {
+	info, ok := w.heapElem[h]
+	if !ok {
+		return nil
+	}
+	var acc func(x string) string
+	switch info.t.Underlying().(type) {
+	case *types.Map, *types.Chan, *types.Pointer:
+		// (addresses of inline struct fields are negative and satisfy this trivially)
+		acc = func(x string) string { return "(<= " + x + " " + top + ")" }
+	case *types.Slice:
+		acc = func(x string) string { return "(and (<= 0 (s-arr " + x + ")) (<= (s-arr " + x + ") " + top + "))" }
+	default:
+		if bits, ok := isUnsigned(info.t); ok {
+			acc = func(x string) string { return "(and (<= 0 " + x + ") (< " + x + " " + pow2(bits) + "))" }
+		} else {
+			return nil
+		}
+	}
+	if info.levels == 1 {
+		return []string{fmt.Sprintf("(assert (forall ((a Int)) (! %s :pattern ((select %s a)))))", acc("(select "+version+" a)"), version)}
+	}
+	return []string{fmt.Sprintf("(assert (forall ((a Int) (k %s)) (! %s :pattern ((select (select %s a) k)))))", info.key, acc("(select (select "+version+" a) k)"), version)}
+}
+
+// At reads element i of a slice view (inner array, offset): a declared function with a defining
+// axiom, so that quantified contract clauses over slice elements get clean E-matching triggers
+// (no arithmetic in the trigger).
+func (w *World) At(elem types.Type, inner, off, i string) string {
+	srt := w.SortOf(elem)
+	name := "at_" + sanitize(srt)
+	if _, ok := w.funDecls[name]; !ok {
+		w.declFun(name, fmt.Sprintf("(declare-fun %s ((Array Int %s) Int Int) %s)", name, srt, srt))
+		w.axioms = append(w.axioms, fmt.Sprintf("(assert (forall ((a (Array Int %s)) (o Int) (i Int)) (! (= (%s a o i) (select a (+ o i))) :pattern ((%s a o i)))))", srt, name, name))
+	}
+	return "(" + name + " " + inner + " " + off + " " + i + ")"
+}
+
 // Box functions for non-pointer values held in interfaces.
 func (w *World) Box(t types.Type) (box, unbox string) {
 	n := shortTypeName(t)
@@ -414,25 +454,10 @@ func (w *World) Prelude() string {
 	for _, h := range hs {
 		fmt.Fprintf(&b, "(declare-fun %s_0 () %s)\n", h, w.heapSorts[h])
 	}
-	// well-formedness of the entry heap: every reference stored in it was allocated before entry
+	// well-formedness of the entry heap
 	for _, h := range hs {
-		info, ok := w.heapElem[h]
-		if !ok {
-			continue
-		}
-		var acc func(x string) string
-		switch info.t.Underlying().(type) {
-		case *types.Pointer, *types.Map, *types.Chan:
-			acc = func(x string) string { return x }
-		case *types.Slice:
-			acc = func(x string) string { return "(s-arr " + x + ")" }
-		default:
-			continue
-		}
-		if info.levels == 1 {
-			fmt.Fprintf(&b, "(assert (forall ((a Int)) (! (<= %s AllocBase) :pattern ((select %s_0 a)))))\n", acc("(select "+h+"_0 a)"), h)
-		} else {
-			fmt.Fprintf(&b, "(assert (forall ((a Int) (k %s)) (! (<= %s AllocBase) :pattern ((select (select %s_0 a) k)))))\n", info.key, acc("(select (select "+h+"_0 a) k)"), h)
+		for _, ax := range w.HeapWF(h, h+"_0", "AllocBase") {
+			b.WriteString(ax + "\n")
 		}
 	}
 	for _, a := range w.axioms {
